@@ -40,6 +40,7 @@ def run(repo, report, tier):
     report.guard("C12.R1", "process run() methods", r1_total, repo, report)
     report.guard("C12.R2", "sentinels", r2_sentinels, repo, report)
     report.guard("C12.R2", "child processes are daemons", r2_daemons, repo, report)
+    report.guard("C12.R2", "no wait for a child on the error path", r2_no_join_in_cleanup, repo, report)
     report.guard("C12.R3", "main", r3_exit, repo, report)
     report.guard("C12.R3", "logging configuration", r3_logging, repo, report)
     report.guard("C12.R3", "quality characters are validated", r3_quality_validation, repo, report)
@@ -477,3 +478,28 @@ def r2_daemons(repo, report):
     report.ob("C12.R2", "every child process of the parallel runner is a daemon", not bad and n == 2, facts={"not_daemon": bad}, loc="src/cutadapt/runners.py",
               expected="daemon = True for ReaderProcess and WorkerProcess (set before start(), or in the class's own Process.__init__ call)",
               why=(f"{bad[0]} is started without the daemon flag: when the main process ends with an error while that child is still blocked, the interpreter waits for it at exit and the program hangs after printing the error" if bad else ""))
+
+
+def r2_no_join_in_cleanup(repo, report):
+    """The runner is used as a context manager; close() runs also when the main process leaves the block with an exception
+    (e.g. the output writer could not be created).  At that moment the reader may be blocked waiting for a worker that was
+    never started: waiting for a child there (join without timeout) never returns.  Children are joined only at the end of
+    run(), after every worker has delivered its statistics."""
+    cls = repo.cls("ParallelPipelineRunner")
+    bad = []
+    for mname in ("close", "__exit__", "__del__"):
+        fn = None
+        for k in repo.mro(cls.name):
+            if mname in k.methods and k.name == cls.name:
+                fn = k.methods[mname]
+        if fn is None:
+            continue
+        for x in ast.walk(fn):
+            if isinstance(x, ast.Call) and isinstance(x.func, ast.Attribute) and x.func.attr == "join" and not x.args and not any(k.arg == "timeout" for k in x.keywords) and "process" in (chain(x.func.value) or "").lower() + "worker":
+                if not isinstance(x.func.value, ast.Constant):
+                    bad.append(f"{mname}: {src(x)}")
+    c, run = repo.need_method("ParallelPipelineRunner", "run")
+    joins = [x for x in ast.walk(run) if isinstance(x, ast.Call) and isinstance(x.func, ast.Attribute) and x.func.attr == "join" and not isinstance(x.func.value, ast.Constant)]
+    report.ob("C12.R2", "ParallelPipelineRunner does not wait for children while cleaning up", not bad and len(joins) >= 2, facts={"joins_in_cleanup": bad, "joins_in_run": len(joins)}, loc=repo.loc(cls.node),
+              expected="join() of the reader and the workers only at the end of run()",
+              why=(f"{bad[0]}: when the main process fails before the workers run (e.g. first byte of a FASTQ corrupted to '>' with -o out.fastq: the writer cannot be created), the reader is blocked on its pipe and this join never returns - the program hangs after the error" if bad else ""))
